@@ -19,6 +19,8 @@ HELPERS = {
     "helper1": (1, "def helper1(a): return a * 2 + 1"),
     "helper2": (2, "def helper2(a, b): return a - b * 3"),
     "ident": (1, "def ident(v): return v"),
+    # defaulted parameters, some of them given (always called with two arguments): binding of the rest to THEIR defaults
+    "helper3": (2, "def helper3(a, b=4, c=9, v=70): return a + b * 2 - c * 5 + v"),
 }
 
 
